@@ -66,11 +66,13 @@ class ExperimentLexer(Lexer):
     RBRACE = r"}"
 
     # logical operators
+    # the master regex takes the first alternative that matches, so the
+    # two-character operators have to come before their one-character prefixes
     KW_EQ = r"=="
-    KW_GT = r">"
-    KW_LT = r"<"
     KW_GE = r">="
     KW_LE = r"<="
+    KW_GT = r">"
+    KW_LT = r"<"
     KW_NE = r"!="
     KW_IN = r"in"
     KW_NOT_IN = r"not\s+in"
